@@ -208,6 +208,20 @@ func BoundaryRunes(n *Node) []rune {
 	for _, r := range []rune{0, 0x7f, 0x80, 0xff, 0x100, 0xfffd, 0xffff, 0x10000, unicode.MaxRune} {
 		add(r)
 	}
+	// case-fold neighbours: non-members whose lower/upper/simple-fold image is a member (and vice
+	// versa) - what a wrong ignore-case flag would confuse, e.g. U+212A KELVIN SIGN and 'k'
+	for x := rune(0); x <= 0x1FFFF; x++ {
+		if x >= 0xD800 && x <= 0xDFFF {
+			continue
+		}
+		in := ClassHas(n, x)
+		for _, y := range []rune{unicode.ToLower(x), unicode.ToUpper(x), unicode.SimpleFold(x)} {
+			if y != x && ClassHas(n, y) != in {
+				set[x] = true
+				set[y] = true
+			}
+		}
+	}
 	out := make([]rune, 0, len(set))
 	for r := range set {
 		out = append(out, r)
@@ -219,4 +233,29 @@ func BoundaryRunes(n *Node) []rune {
 		}
 	}
 	return out
+}
+
+// ClassHas reports whether rune r is in the class as written in the grammar
+// (inversion and the ignore-case suffix applied).
+func ClassHas(n *Node, r rune) bool {
+	if n.IgnoreCase {
+		r = unicode.ToLower(r)
+	}
+	in := false
+	for _, c := range n.Chars {
+		if c == r {
+			in = true
+		}
+	}
+	for i := 0; i+1 < len(n.Ranges); i += 2 {
+		if r >= n.Ranges[i] && r <= n.Ranges[i+1] {
+			in = true
+		}
+	}
+	for _, cl := range n.Classes {
+		if unicode.Is(cl, r) {
+			in = true
+		}
+	}
+	return in != n.Inverted
 }
